@@ -46,5 +46,19 @@ package clients
 //@   ensures [one-per-entry] len(c.connections) == old(len(c.connections)) + len(list)
 //@ func (*baseClient).makeConnection
 //@   assigns nothing
+// Start runs one goroutine per entry of the connection list, for exactly that
+// entry; the goroutine calls startConnection once with the entry it was given.
+//@ func (*baseClient).Start
+//@   ghost-init g_spawned == 0
+//@   at-call Start$1 effect g_spawned == g_spawned + 1
+//@   at-call Start$1 [goroutine-for-this-entry] spawned && arg0 == rangeindex + 1 && arg1 == c.connections[rangeindex + 1]
+//@   loop 1 invariant [one-goroutine-per-entry] -1 <= rangeindex && rangeindex < old(len(c.connections)) && g_spawned == rangeindex + 1
+//@   ensures [every-entry-got-one] g_spawned == old(len(c.connections))
+//@ func (*baseClient).Start$1
+//@   requires [captured] c != nil && !isnil(ctx)
+//@   ghost-init g_startCalls == 0
+//@   at-call startConnection effect g_startCalls == g_startCalls + 1
+//@   at-call startConnection [the-entry-it-was-given] arg2 == i && arg3 == conn
+//@   ensures [started-exactly-once] g_startCalls == 1
 //@ func newTailStats
 //@   assigns nothing
